@@ -15,6 +15,7 @@ import (
 	"fmt"
 	"io/ioutil"
 	"log"
+	"net"
 	"os"
 	"strings"
 	"sync"
@@ -596,4 +597,105 @@ func runCtlUnit(first string) string {
 		hb = "X"
 	}
 	return fmt.Sprintf("h%scDr0s%d", hb, h.State())
+}
+
+// runRetry: the retry loop of hostConnPool.connect() under a reconnection policy with GetMaxRetries() = n. A size-1
+// pool is emptied by a server-side reset of its connection; the refill's attempts get the scripted fates
+// (o connects, t fails with a retryable error, p with a *net.OpError that is not Temporary(); beyond the list: o).
+// Recorded at quiescence: attempts made, len(pool.conns), nil entries, and what Pick does.
+func runRetry(label string, n int, fates string) (line string) {
+	withLabel(label, func() { line = runRetryLabelled(label, n, fates) })
+	return
+}
+
+func runRetryLabelled(label string, n int, fates string) string {
+	ip := "10.0.0.1"
+	cl := memcluster.NewCluster(4, ip)
+	node := cl.Nodes[ip]
+	node.Handle = func(req *memcluster.Request) {
+		req.Conn.Reply(req.Stream, memcluster.OpResult, memcluster.VoidBody())
+	}
+	var mu sync.Mutex
+	armed := false
+	base := 0
+	pol := &gocql.ConstantReconnectionPolicy{MaxRetries: 1, Interval: time.Millisecond}
+	node.DialHook = func(_ *memcluster.Node, id int) error {
+		mu.Lock()
+		defer mu.Unlock()
+		if !armed {
+			return nil
+		}
+		i := id - base - 1
+		if fates != "-" && i >= 0 && i < len(fates) {
+			switch fates[i] {
+			case 't':
+				return errors.New("memcluster: connection refused (retryable)")
+			case 'p':
+				return &net.OpError{Op: "dial", Net: "tcp", Err: errors.New("memcluster: network is unreachable")}
+			}
+		}
+		return nil
+	}
+	cfg := sess.Config(cl, 4, ip)
+	cfg.ReconnectionPolicy = pol
+	cfg.ConvictionPolicy = noConviction{}
+	cfg.Timeout = 120 * time.Second
+	s, err := createSession(cfg)
+	if err != nil {
+		return "fatal:" + err.Error()
+	}
+	defer func() {
+		defer func() { recover() }()
+		s.Close()
+	}()
+	h := gocql.VerifHostPools(s)[ip]
+	if h == nil || !patient(wd(), func() bool { c, _, _, f := h.State(); return c == 1 && !f }) {
+		return "fatal:no pool connection after NewSession"
+	}
+	mu.Lock()
+	armed = true
+	base = node.NumDials()
+	pol.MaxRetries = n
+	mu.Unlock()
+	scs := node.ServerConns()
+	scs[len(scs)-1].Close()
+	// the refill is over: (n = 0) the nil entry is there, or an attempt was made and AFTERWARDS the pool is seen not
+	// filling (`filling` is set before the first attempt of a fill and cleared after its last; evaluated in this order)
+	patient(wd(), func() bool {
+		if h.NilConns() > 0 {
+			return true
+		}
+		if node.NumDials() <= base {
+			return false
+		}
+		_, _, _, f := h.State()
+		return !f
+	})
+	dials := node.NumDials() - base
+	conns, _, _, _ := h.State()
+	nils := h.NilConns()
+	res := "err"
+	if nils > 0 {
+		res = "nil"
+	} else if conns == 1 {
+		res = "conn"
+	}
+	mu.Lock()
+	armed = false // whatever Pick starts connects
+	mu.Unlock()
+	pick := func() (r string) {
+		defer func() {
+			if x := recover(); x != nil {
+				r = "nilderef"
+				if !strings.Contains(fmt.Sprint(x), "nil pointer") {
+					r = "panic"
+				}
+			}
+		}()
+		if h.Pick() {
+			return "ok"
+		}
+		return "none"
+	}()
+	return fmt.Sprintf("res=%s dials=%d conns=%d nil=%d pick=%s", res, dials, conns, nils, pick)
 }
